@@ -148,7 +148,11 @@ func why(a action, prior []action, gs []grant) string {
 	return "grants-expired-or-not-yet-effective"
 }
 
-var cmdPool = []string{"true", "true ", "TRUE", " true", "true #x", "echo hi", "echo  hi", "true\n"}
+// long255 is a harmless command of exactly 255 bytes; the two after it extend it.
+var long255 = "true #" + strings.Repeat("x", 249)
+
+var cmdPool = []string{"true", "true ", "TRUE", " true", "true #x", "echo hi", "echo  hi", "true\n",
+	long255, long255 + "y", long255[:254], long255 + "\necho appended"}
 
 // ---------------------------------------------------------------------------
 // C05 end to end: who gets the confirmation byte
@@ -445,6 +449,7 @@ func directedC07() []directedCase {
 		{"shell-before-start", []grant{{User: "alice", Key: 0, Type: byte(authgrants.Shell), Start: h, Exp: 2 * h, Via: "func"}}, []step{{Op: "exec", Cmd: "", Pty: true}}},
 		{"shell-after-expiry", []grant{sh}, []step{{Op: "clock", Dur: 2 * h}, {Op: "exec", Cmd: "", Pty: true}}},
 		{"wire-grant-before-start", []grant{{User: "alice", Key: 0, Type: byte(authgrants.Command), Cmd: "true", Start: h, Exp: 2 * h, Via: "wire"}}, []step{{Op: "exec", Cmd: "true"}}},
+		{"long-command-and-its-extensions", []grant{cmdGrant(long255, -h, h)}, []step{{Op: "exec", Cmd: long255 + "y"}, {Op: "exec", Cmd: long255 + "\necho appended"}, {Op: "exec", Cmd: long255[:254]}, {Op: "exec", Cmd: long255}}},
 		{"other-tubes", []grant{cmdGrant("true", -h, h)}, []step{{Op: "tube", TubeT: 7}, {Op: "tube", TubeT: 99}, {Op: "tube", TubeT: 3}, {Op: "exec", Cmd: "true"}}},
 	}
 }
